@@ -248,7 +248,10 @@ def exec_grammar(engine_extras: bool = False, opt_extras: bool = False, limit_ex
                         A("c3.derived_notnull!", 0, "(SELECT a, b FROM x WHERE b IS NOT NULL) AS s"), A("c3.derived_plain!", 0, "(SELECT a, b FROM x) AS s")],
             "jk2": [A("j2.inner!", 0, "JOIN"), A("j2.left!", 0, "LEFT JOIN"), A("j2.right!", 0, "RIGHT JOIN"), A("j2.full!", 0, "FULL JOIN")],
             "c3on2": [A("on2.other!", 0, "y.c = x2.a"), A("on2.first!", 0, "s.a = x2.a"), A("on2.both!", 0, "y.c = x2.a AND s.a = x2.b")],
-            "c3where": [A("c3.nowhere", 0, ""), A("c3.where_first!", 0, " WHERE s.a = 1"), A("c3.where_last_null!", 0, " WHERE x2.b IS NULL")],
+            "c3where": [A("c3.nowhere", 0, ""), A("c3.where_first!", 0, " WHERE s.a = 1"), A("c3.where_last_null!", 0, " WHERE x2.b IS NULL"),
+                        # filters in disjunctive normal form over two of the three items (a predicate may only move when EVERY block contributes)
+                        A("c3.where_dnf_mid_last!", 0, " WHERE (y.c = 1 AND x2.b = 2) OR y.c = 2"), A("c3.where_dnf_first_last!", 0, " WHERE (s.a = 1 AND x2.b = 2) OR s.a = 2"),
+                        A("c3.where_dnf_two_blocks!", 0, " WHERE (s.a = 1 AND y.c = 2) OR (s.a = 2 AND y.c = 1)")],
             "sc_s": [A("d", 0, "s.a = 1"), A("s.b_null", 1, "s.a IS NULL"), A("s.gt", 1, "s.a > 1"), A("s.or", 1, "s.a = 1 OR s.a IS NULL"),
                      A("s.in", 1, "s.a IN (1, NULL)"), A("s.not", 1, "NOT s.a = 1"), A("s.neq", 1, "s.a <> 2")],
             "jc_ys": [A("d", 0, "y.c = 1"), A("n_null", 1, "s.n IS NULL"), A("n_gt", 1, "s.n > 1"), A("coalesce", 1, "COALESCE(s.n, 0) = 0")],
